@@ -333,38 +333,40 @@ class CSSStyleSheet(cssutils.stylesheets.StyleSheet):
         newseq = []
 
         # ['CHARSET', 'IMPORT', ('VAR', NAMESPACE'), ('PAGE', 'MEDIA', ruleset)]
-        wellformed, expected = self._parse(
-            0,
-            newseq,
-            tokenizer,
-            {
-                'S': S,
-                'COMMENT': COMMENT,
-                'CDO': S,
-                'CDC': S,
-                'CHARSET_SYM': charsetrule,
-                'FONT_FACE_SYM': fontfacerule,
-                'IMPORT_SYM': importrule,
-                'NAMESPACE_SYM': namespacerule,
-                'PAGE_SYM': pagerule,
-                'MEDIA_SYM': mediarule,
-                'VARIABLES_SYM': variablesrule,
-                'ATKEYWORD': unknownrule,
-            },
-            default=ruleset,
-        )
+        wellformed = False
+        try:
+            wellformed, expected = self._parse(
+                0,
+                newseq,
+                tokenizer,
+                {
+                    'S': S,
+                    'COMMENT': COMMENT,
+                    'CDO': S,
+                    'CDC': S,
+                    'CHARSET_SYM': charsetrule,
+                    'FONT_FACE_SYM': fontfacerule,
+                    'IMPORT_SYM': importrule,
+                    'NAMESPACE_SYM': namespacerule,
+                    'PAGE_SYM': pagerule,
+                    'MEDIA_SYM': mediarule,
+                    'VARIABLES_SYM': variablesrule,
+                    'ATKEYWORD': unknownrule,
+                },
+                default=ruleset,
+            )
+        finally:
+            if wellformed:
+                # use proper namespace object
+                self._namespaces = _Namespaces(parentStyleSheet=self, log=self._log)
+                self._cleanNamespaces()
 
-        if wellformed:
-            # use proper namespace object
-            self._namespaces = _Namespaces(parentStyleSheet=self, log=self._log)
-            self._cleanNamespaces()
-
-        else:
-            # reset
-            self._cssRules = oldCssRules
-            self._namespaces = oldNamespaces
-            self._updateVariables()
-            self._cleanNamespaces()
+            else:
+                # reset, also if an exception is raised (raising mode)
+                self._cssRules = oldCssRules
+                self._namespaces = oldNamespaces
+                self._updateVariables()
+                self._cleanNamespaces()
 
     cssText = property(
         _getCssText,
